@@ -6,11 +6,15 @@ PROPS = "RotoV.Props.C14"
 
 
 def search(ctx):
+    if ctx.impl_violations:
+        # the correspondence run already has concrete failing inputs
+        return
     if ctx.build_harness("c14"):
         ctx.harness("c14", ["run", ctx.seed + 7919, "thorough"], timeout=3000, name="search:c14")
 
 
 def run(ctx):
+    ctx.extract(["c14emit"])
     ctx.prove(PROPS, extra_modules=["RotoV.Model.Tarjan", "RotoV.Model.TarjanLir", "RotoV.Lemmas.Tarjan", "RotoV.Lemmas.TarjanCtx", "RotoV.Lemmas.TarjanNoPanic", "RotoV.Lemmas.TarjanLir"])
     if ctx.build_harness("c14"):
         ctx.harness("c14", ["run", ctx.seed, ctx.tier], timeout=3000)
